@@ -140,6 +140,10 @@ def run(pid, tier):
             # C06 quantifies over delays of the run's own bookkeeping and over children that outlive a failure
             variant = (i % 3) if pid == "C06" else (1 if i % 7 == 3 else 0)
             scenarios.append(runlib.scenario_from_behaviour(b, i, rng, variant))
+        if pid == "C04":
+            scenarios.append(runlib.detached_output_scenario(chk.seed))
+            if tier == "thorough":
+                scenarios.append(runlib.detached_output_scenario(chk.seed + 1, 4200))
         if pid == "C05":
             # very wide groups: the run's grouping must still be analyze's grouping, every member started once
             scenarios.append(runlib.wide_scenario(150, chk.seed, mode="all"))
